@@ -70,6 +70,28 @@ PROPS = {
                       "cache files), with a direct trust monitor.",
         "level_note": "Trusted: Lean kernel; harness server/pty/normalisation; extractor. Not modelled: git nodes, TLS, redirects, crash between cache writes.",
     },
+    "C19": {
+        "lean": "Props.C19",
+        "domains": [{"name": "quote"}, {"name": "cliargs"}],
+        "cli": True,
+        "trusted": ["mvdan.cc/sh's lexer + quote removal (shell.Fields, and the interpreter that runs task commands) is the shell: "
+                    "the model's `words` is compared with it on generated command lines of the quoted sub-language, not derived from it",
+                    "unicode.IsPrint is read from the toolchain's tables (TaskModel.Gen.QuoteTab.printRanges, regenerated on every run)"],
+        "assumptions": ["arguments contain no NUL byte (the OS cannot pass one; syntax.Quote rejects it, modelled)",
+                        "the command line handed to the shell consists of the quoted forms separated by single spaces, as "
+                        "`REC {{.CLI_ARGS}}` / `REC {{shellQuote .X}}` produce; a shell other than mvdan.cc/sh (bash) decodes \\uXXXX "
+                        "according to its locale",
+                        "--init: unix paths; names containing .ROOT_DIR/.TASKFILE_DIR/.USER_WORKING_DIR (treated as absolute by "
+                        "filepathext.IsAbs) are outside the modelled domain"],
+        "level_text": "Theorems (all argument vectors of NUL-free byte strings, any bytes 0x01-0xFF incl. invalid UTF-8, any length and count): "
+                      "words(join(map quote args)) = args, i.e. every forwarded argument arrives as exactly one identical argument; the same for a "
+                      "single shellQuote'd value; splitVar splits at the first '=' only; args.Parse keeps order and last assignment; --init writes "
+                      "at the path computed from the first positional argument and never over an existing entry. Tie: syntax.Quote, shell.Fields, "
+                      "args.Parse/Get run in process against the model on generated byte strings (exact equality), and the real CLI end to end with "
+                      "an argv-recording helper for {{.CLI_ARGS}}, {{shellQuote .X}}, {{q .X}} and task --init on generated trees.",
+        "level_note": "Trusted: Lean kernel; harness canonicalisation; mvdan.cc/sh as the shell (oracle for `words`); unicode tables of the Go toolchain. "
+                      "Open finding: forwarded values that contain a template action are evaluated by the template engine (DESIGN §8 row 26).",
+    },
 }
 
 
@@ -77,7 +99,32 @@ def _has_meta(s):
     return any(ch in s for ch in ".()[]+?|\\^${}")
 
 
+def _c19_args_with(m, hexneedle):
+    c = m.get("case") or {}
+    if m.get("domain") != "cliargs" or c.get("kind") not in ("fwd", "var"):
+        return None
+    return any(a[i:i + len(hexneedle)] == hexneedle for a in c.get("argv", []) for i in range(0, len(a), 2))
+
+
+def _c19_values_templated(m):
+    """DESIGN §8 row 26, one mechanism only: a forwarded argument (after `--`, or NAME=value)
+    contains a template action and what the helper received is exactly what the variable pass
+    of the real templater yields for the forwarded text (the harness monitor computes that and
+    tags the outcome `templated`), or that pass fails and so does the run."""
+    return bool(_c19_args_with(m, "7b7b")) and m["impl"].endswith(" templated")
+
+
+def _c19_no_value_deleted(m):
+    """templater.Replace deletes the literal text `<no value>` from everything it renders: a
+    forwarded argument without any template action but with that literal arrives without it
+    (tag `novalue` set by the harness monitor)."""
+    return (_c19_args_with(m, "7b7b") is False and bool(_c19_args_with(m, "3c6e6f2076616c75653e"))
+            and m["impl"].endswith(" novalue"))
+
+
 FINDING_PREDICATES = {
+    "C19-cli-values-are-templated": _c19_values_templated,
+    "C19-no-value-text-deleted": _c19_no_value_deleted,
 }
 
 HOOK_COMMITS = []
